@@ -258,9 +258,13 @@ nd::harnesses! {
         let vt: &DefaultsVtbl<_, _> = obj.get_vtbl_base();
         let mut w = [0usize; 12];
         words_of(vt, 7, &mut w);
-        assert!(w[0] == vt.add() as usize && w[1] == vt.add_twice() as usize && w[2] == vt.post() as usize);
-        assert!(w[3] == vt.post_urgent() as usize && w[4] == vt.coded() as usize && w[5] == vt.io_after() as usize);
+        // the slots of the two provided methods are located by position only (no getter is named), so that a
+        // generator which drops such a slot still compiles this crate and is reported as a layout violation
+        assert!(size_of_val(vt) == 7 * W, "one slot per exported method, provided ones included");
+        assert!(w[0] == vt.add() as usize && w[2] == vt.post() as usize);
+        assert!(w[4] == vt.coded() as usize && w[5] == vt.io_after() as usize);
         assert!(w[6] == vt.state() as usize);
+        assert!(w[1] != 0 && w[3] != 0);
         let mut i = 0;
         while i < 7 {
             let mut j = i + 1;
